@@ -6,6 +6,9 @@ import RbV.Model.Kmp
 import RbV.Model.Bndm
 import RbV.Model.Bom
 import RbV.Lemmas.BomOracle
+import RbV.Thm.GenSrcKmpLps
+import RbV.Thm.GenSrcShiftAndMasks
+import RbV.Thm.GenSrcHorspoolNew
 /-!
 # C08 — exact matchers return exactly all occurrences
 
@@ -139,5 +142,98 @@ example : Bom.build [1, 2, 1, 1, 2] =
 -- the oracle of `abbbaab` (the pattern is its reverse) accepts `aba`, which is not a factor: the converse of
 -- `bom_oracle_accepts_factors` is false, which is why the search needs `bom_oracle_monotone` for the full window
 example : Bom.runT (Bom.build [2, 1, 1, 2, 2, 2, 1]) 0 [1, 2, 1] = some 5 := by decide
+
+/-! ## Function bodies translated from the source text (docs/notes/GEN.md, "Translated function bodies")
+
+`RbV/Gen/Src*.lean` are regenerated from the Rust text by `tools/rs2lean.py` on every `./check C08`; the theorems below
+are re-proved against the regenerated definitions (proofs: `RbV/Thm/GenSrc*.lean`). `Rs.Res.ok v` = the translated
+function returns `v` without panicking (index out of bounds, checked `usize` arithmetic) and without running out of the
+fuel given to its `while` loops. -/
+
+/-- **`fn lps` of `kmp.rs`, as written, is the mirror model `Kmp.lps`** (for every pattern whose length fits `usize`,
+which every Rust slice does): the tie between the model that `kmp_exact` / `kmp_lps_is_border_table` are about and the
+code is a theorem for this function, not a sample. -/
+theorem kmp_lps_source_eq_model (p : List Nat) (h64 : p.length < 2 ^ 64) :
+    Gen.SrcKmpLps.lps p = Rs.Res.ok (Kmp.lps p) :=
+  GenSrcKmpLps.lps_eq_model p h64
+
+/-- generated code = specification: the translated `lps` returns, without panic, the table of longest proper borders. -/
+theorem kmp_lps_source_is_border_table (p : List Nat) (hp : 0 < p.length) (h64 : p.length < 2 ^ 64) :
+    ∃ l, Gen.SrcKmpLps.lps p = Rs.Res.ok l ∧ l.length = p.length ∧ Kmp.LpsSpec p l :=
+  ⟨Kmp.lps p, GenSrcKmpLps.lps_eq_model p h64, (Kmp.lps_spec p hp).2, (Kmp.lps_spec p hp).1⟩
+
+example : Gen.SrcKmpLps.lps [1, 2, 1, 2, 3] = Rs.Res.ok [0, 0, 1, 2, 0] := by decide
+
+/-- **`fn delta` of `kmp.rs`, as written, is the mirror model `Kmp.delta`** over the failure table (for every non-empty
+pattern, every automaton state `q ≤ m` and every symbol): the `while q == m || (pattern[q] != a && q > 0)` loop with its
+guarded read, `lps[q - 1]`, and the checked `q += 1` never panic, the fuel `q + 1` suffices. Together with
+`kmp_lps_source_eq_model` the whole automaton of KMP is tied to the source text by theorems; only the iterator glue
+`Matches::next` (`q = delta(q, c); if q == m { yield 1 + i - m }`) stays tied by the correspondence run. -/
+theorem kmp_delta_source_eq_model (p : List Nat) (hp : 0 < p.length) (h64 : p.length < 2 ^ 64) (q a : Nat)
+    (hq : q ≤ p.length) :
+    Gen.SrcKmpLps.delta p.length (Kmp.lps p) p q a = Rs.Res.ok (Kmp.delta p (Kmp.lps p) q a) :=
+  GenSrcKmpLps.delta_eq_model p hp h64 q a hq
+
+/-- generated code = specification: if `q` is the longest prefix of `p` that is a suffix of the text read so far, the
+translated `delta` returns, without panic, the longest such prefix after reading `a`. -/
+theorem kmp_delta_source_spec (p pre : List Nat) (hp : 0 < p.length) (h64 : p.length < 2 ^ 64) (q a : Nat)
+    (hmax : Kmp.MaxPS p pre q) :
+    ∃ q', Gen.SrcKmpLps.delta p.length (Kmp.lps p) p q a = Rs.Res.ok q' ∧ Kmp.MaxPS p (pre ++ [a]) q' := by
+  have hq : q ≤ p.length := hmax.1.1
+  refine ⟨_, GenSrcKmpLps.delta_eq_model p hp h64 q a hq, ?_⟩
+  obtain ⟨hspec, hlen⟩ := Kmp.lps_spec p hp
+  exact Kmp.advance_spec p (Kmp.lps p) pre a true hp hspec q (by omega) (Or.inl rfl) hmax
+
+example : Gen.SrcKmpLps.delta 5 [0, 0, 0, 1, 2] [1, 2, 2, 1, 2] 5 2 = Rs.Res.ok 3 := by decide
+
+/-- **`pub fn masks` of `shift_and.rs`, as written, is the mirror model `ShiftAnd.masksLoop`**, for every pattern of
+bytes (no length bound: `masks` itself never panics, the running bit is shifted out after the 64th symbol): the returned
+array is the model's mask function tabulated over 0..255, the returned accept mask is the model's. -/
+theorem shiftAnd_masks_source_eq_model (p : List Nat) (hb : ∀ c ∈ p, c < 256) :
+    Gen.SrcShiftAndMasks.masks p
+      = Rs.Res.ok ((List.range 256).map (ShiftAnd.masksLoop p).masks, (ShiftAnd.masksLoop p).accept) :=
+  GenSrcShiftAndMasks.masks_eq_model p hb
+
+/-- generated code = specification: for a pattern of at most 64 bytes the translated `masks` returns, without panic, a
+256-entry table whose entry `c` has bit `j` set exactly when `p[j] = c`, and the accept mask `2^(m-1)`. -/
+theorem shiftAnd_masks_source_spec (p : List Nat) (hb : ∀ c ∈ p, c < 256) (hm : p.length ≤ 64) :
+    ∃ tab acc, Gen.SrcShiftAndMasks.masks p = Rs.Res.ok (tab, acc) ∧ tab.length = 256
+      ∧ (∀ c j, c < 256 → (tab.getD c 0).testBit j = (p[j]? == some c))
+      ∧ (0 < p.length → acc = 2 ^ (p.length - 1)) := by
+  refine ⟨_, _, GenSrcShiftAndMasks.masks_eq_model p hb, GenSrc.tab_length _ _, ?_, ?_⟩
+  · intro c j hc
+    rw [List.getD_eq_getElem?_getD, GenSrc.tab_get _ _ _ hc]
+    exact ShiftAnd.masks_testBit p hm c j
+  · intro hp
+    exact ShiftAnd.accept_eq p hm hp
+
+example := shiftAnd_masks_source_spec [1, 2, 1] (by decide) (by decide)
+example : (ShiftAnd.masksLoop [1, 2, 1]).masks 1 = 5 ∧ (ShiftAnd.masksLoop [1, 2, 1]).accept = 4 := by decide
+
+/-- **`Horspool::new` of `horspool.rs`, as written, builds the mirror model's shift table**: for every non-empty pattern of
+bytes the translated constructor returns, without panic (`m - 1`, `m - 1 - j` never underflow, `pattern[..m - 1]` and
+`shift[a as usize]` stay in bounds), the triple `(m, shift, pattern)` with `shift` = `Horspool.shiftTab p` tabulated over
+0..255. -/
+theorem horspool_new_source_eq_model (p : List Nat) (hp : 0 < p.length) (hb : ∀ c ∈ p, c < 256) :
+    Gen.SrcHorspoolNew.new p = Rs.Res.ok (p.length, (List.range 256).map (Horspool.shiftTab p), p) :=
+  GenSrcHorspoolNew.new_eq_model p hp hb
+
+/-- generated code = specification: every entry of the table built by the translated constructor is a safe shift — between
+1 and m, and no occurrence of the symbol in `p[0..m-1)` lies strictly within that distance of the window end. -/
+theorem horspool_new_source_spec (p : List Nat) (hp : 0 < p.length) (hb : ∀ c ∈ p, c < 256) :
+    ∃ sh, Gen.SrcHorspoolNew.new p = Rs.Res.ok (p.length, sh, p) ∧ sh.length = 256 ∧
+      ∀ c, c < 256 → 1 ≤ sh.getD c 0 ∧ sh.getD c 0 ≤ p.length ∧
+        ∀ d, 0 < d → d < sh.getD c 0 → p[p.length - 1 - d]? ≠ some c := by
+  refine ⟨_, GenSrcHorspoolNew.new_eq_model p hp hb, GenSrc.tab_length _ _, ?_⟩
+  intro c hc
+  rw [List.getD_eq_getElem?_getD, GenSrc.tab_get _ _ _ hc]
+  exact ⟨(Horspool.shift_bounds p hp c).1, (Horspool.shift_bounds p hp c).2, fun d hd hlt => Horspool.shift_safe p hp c d hd hlt⟩
+
+/-- the empty pattern is refused: `m - 1` underflows and the translated constructor panics (the harness never sends it) -/
+theorem horspool_new_source_empty_panics : Gen.SrcHorspoolNew.new [] = Rs.Res.panic :=
+  GenSrcHorspoolNew.new_nil_panics
+
+example := horspool_new_source_spec [1, 2, 1] (by decide) (by decide)
+example : Horspool.shiftTab [1, 1, 3, 2] 1 = 2 ∧ Horspool.shiftTab [1, 1, 3, 2] 2 = 4 := by decide
 
 end RbV.Thm.C08
